@@ -532,6 +532,13 @@ where A::Llr: Num, A::VarMessage: Num, A::CheckMessage: Num, A::VarLlr: Num {
                     let vars: Vec<f64> = (0..nv).map(|_| *rng.pick(&lv) * if rng.coin(1, 2) { -1.0 } else { 1.0 } + *rng.pick(&[0.0, 0.5, 1.0])).collect();
                     let olds: Vec<(usize, f64)> = dests.iter().map(|&t| (t, *rng.pick(&[0.0, 0.5, 1.0]))).collect();
                     (olds, vars)
+                } else if i % 11 == 5 {
+                    // SATURATION: every extrinsic magnitude beyond the point where the float rules saturate (tanh product exactly +-1,
+                    // phi(x) = 0): the layered update must still give what the flooding rule gives on the extrinsics - finite values
+                    let big = [40.0, 64.0, 100.0, 750.0, 1e4];
+                    let vars: Vec<f64> = (0..nv).map(|_| *rng.pick(&big) * if rng.coin(1, 2) { -1.0 } else { 1.0 }).collect();
+                    let olds: Vec<(usize, f64)> = dests.iter().map(|&t| (t, if rng.coin(1, 2) { 0.0 } else { rng.gauss() })).collect();
+                    (olds, vars)
                 } else {
                     (dests.iter().map(|&t| (t, if i % 5 == 0 { 0.0 } else { (rng.gauss() * s * 0.5).clamp(-range / 2.0, range / 2.0) })).collect(),
                      (0..nv).map(|_| (rng.gauss() * s).clamp(-range / 2.0, range / 2.0)).collect())
